@@ -313,7 +313,8 @@ def subNamesAgree (a b : Ty) : Bool :=
 
 def grammarOk (inp : Input) : Bool :=
   wfLevels inp.src && wfLevels inp.dest && wfSelectors inp.src && wfSelectors inp.dest &&
-  !dupFns inp.fns && inp.fns.all (fun f => !f.param.isStructSlice && !f.result.isStructSlice) &&
+  !dupFns inp.fns && inp.fns.all (fun f => !f.param.isStructSlice && !f.result.isStructSlice &&
+    f.param.strip.2 != .basic "bool" && f.result.strip.2 != .basic "bool") &&   -- the oracle cannot trace a bool through a method
   wfNewSide inp.src inp.srcNew && wfNewSide inp.dest inp.destNew &&
   (plan inp).st.toC.all (fun c => !isSubStrat c.strat || subNamesAgree c.rd.ty c.wr.ty) &&
   (plan inp).st.fromC.all (fun c => !isSubStrat c.strat || subNamesAgree c.wr.ty c.rd.ty) &&
@@ -345,7 +346,7 @@ def topDecls : Tree → List FDecl
 
 def F_tagKey (inp : Input) : Bool :=
   (topDecls inp.src).any (fun f => match f.tag with
-    | .name _ => isExported f.name && pascalS f.name != f.name
+    | .name _ => isExported f.name && (pascalS f.name != f.name || f.joined)   -- `A, B int \`map:"X"\``: only A is keyed
     | _ => false)
 
 /-- F_nestedTag: tags of promoted fields are not read at all -/
@@ -512,7 +513,18 @@ def writesOf (tree : Tree) (ctor : Option (List CtorArg)) (stmts : List Claim) (
    | none => 0) +
   (stmts.filter (fun c => match resolveField tree c.wr with | some wl => wl.path == l.path | none => false)).length
 
+/-- `zeroValue` (ctor.go) has no case for alias types: a constructor parameter of type `any` that needs
+    the zero literal makes the run fail with "not supported" — whichever direction is requested -/
+def ctorZeroFatal (inp : Input) : Bool :=
+  let p := plan inp
+  let side := fun (nm : Field → Field → Bool) (fields params : List Field) =>
+    params.any (fun q => q.ty == .basic "any" && !(ctorFold inp.conv inp.fns nm fields params []).2.any (fun a => a.p == q))
+  -- the zero literals are computed for every unmatched parameter, before it is known whether the constructor is used
+  side inp.nm p.srcFields (sideParams inp.dest inp.destNew) ||
+  side (canNameMatch [] inp.ic) p.destFields (sideParams inp.src inp.srcNew)
+
 def obs15 (inp : Input) : List (String × String) :=
+  if ctorZeroFatal inp then [("exit", "1")] else
   if !modelCompiles inp then [("compile", "error")] else
   let p := plan inp
   obs05 inp
@@ -578,8 +590,12 @@ def F_ctorTag (inp : Input) : Bool :=
   fromGen inp && inp.srcNew && (leavesOf inp.src).any (fun l => ctorOnly l &&
     (match l.decl.tag with | .name _ => true | _ => false) && (candsFrom inp l).length == 1)
 
+/-- F_ctorZeroAny: see `ctorZeroFatal` -/
+def F_ctorZeroAny (inp : Input) : Bool := ctorZeroFatal inp
+
 def region15 (inp : Input) : String :=
   if !grammarOk inp || !(inp.srcNew || inp.destNew) || !namesOk inp then "Out"
+  else if F_ctorZeroAny inp then "F_ctorZeroAny"
   else if F_setOnlyRead inp then "F_setOnlyRead"
   else if !modelCompiles inp then "Out"
   else if F_skipTagNew inp then "F_skipTagNew"
